@@ -106,6 +106,7 @@ def gen_case(r, tier="quick"):
         ops.append("call %d shutdown %d" % (r.randrange(ncl), wait))
         for _ in range(r.randrange(0, 12)):
             ops.append(move())
+    ops.append("quiesce")
     ops.append("finish")
     kind = "%s-%s-%s" % (ex, "lim%d%s" % (min(cfg["limit"], 2), "b" if cfg["blocking"] else "") if cfg["limit"] else "unl", style)
     return Case(kind, ops, lambda out, ops=ops, cfg=cfg: oracle(cfg, ops, out))
@@ -139,6 +140,7 @@ def oracle(cfg, ops, out):
     sd_returned = False
     soft = []              # findings that do not stop the bookkeeping
     blocked = set()        # clients that have waited for room during their current call
+    quiet_state = None
 
     def no_stray_discards(where):
         if recent_discards:
@@ -166,6 +168,8 @@ def oracle(cfg, ops, out):
             who, evs, state = p
             if w[0] == "call" and not evs:
                 pending[int(w[1])] = (w[2], int(w[3]), sd_returned)
+            if w[0] == "quiesce":
+                quiet_state = state
             for e in evs:
                 f = e.split(":")
                 if f[0] == "start":
@@ -264,6 +268,11 @@ def oracle(cfg, ops, out):
                     blocked.add(int(f[1]))
                     if not (cfg["blocking"] and limit and len(queued) >= limit):
                         raise Bad("[block] a submitter was made to wait with %d of %d slots used" % (len(queued), limit))
+        # ---- `quiesce` ran every thread that could move: no call may still be outstanding (whether or not a shutdown was made)
+        if quiet_state is not None:
+            cl = quiet_state.split(" c=")[1].split(",")
+            if any(x != "I" for x in cl):
+                raise Bad("[deadlock] nothing can move but a call has not returned: `%s`" % quiet_state[-160:])
         # ---- end of the case: `finish` issued a waiting shutdown (if none was under way) and ran every thread that could move
         p = parse_line(out[len(ops) - 1])
         state = p[2]
